@@ -14,6 +14,7 @@ import collections
 import json
 import os
 import re
+import sys
 import time
 
 import ber
@@ -25,7 +26,8 @@ import p_schema as PS
 import translate_re as TR
 from codec import M, sansldap
 
-LEAN_TARGETS = ["Verif.Props.C18", "Verif.Props.C18Filter", "Verif.Props.C18Steps", "Verif.Props.C18Recv", "Verif.Props.C18Decode", "Verif.Props.TiesSchema", "Verif.Props.SmallMore"]
+LEAN_TARGETS = ["Verif.Props.C18", "Verif.Props.C18Filter", "Verif.Props.C18Steps", "Verif.Props.C18Recv", "Verif.Props.C18Decode", "Verif.Props.C18Schema",
+                "Verif.Props.TiesSchema", "Verif.Props.SmallMore"]
 LEVEL = "proof"
 ASSUMPTIONS = [
     "the running time of CPython's re engine on an input is at most a constant times the size of the backtracking search tree (Re.work)",
@@ -455,10 +457,34 @@ def run(ctx):
                 violations.append({"key": None, "what": "step count exceeds the quadratic bound 100*(n+1)^2+5000 (executed source lines)", "family": label,
                                    "size_parameter": k, "bytes": n, "steps": steps})
                 break
+    # (5) the step-counting model of the schema from_string post-processing (Model/SchemaCost.lean, Props/C18Schema.lean) against the real code:
+    # same acceptance, executed source lines of schema.py <= model's own steps + 60 on growing families (harness/p_schema_steps.py)
+    if ctx.driver_ok:
+        import subprocess
+        import tempfile
+
+        with tempfile.NamedTemporaryFile(suffix=".json") as tf:
+            p_ = subprocess.run([sys.executable, os.path.join(os.path.dirname(os.path.abspath(__file__)), "p_schema_steps.py")], capture_output=True, text=True,
+                                env=dict(os.environ, SCHEMA_STEPS_REPORT=tf.name), timeout=900)
+            try:
+                rep_ = json.load(open(tf.name))
+                hist["schema-steps:inputs"] = sum(len(f["rows"]) for f in rep_["families"])
+                hist["schema-steps:worst lines/steps x1000"] = int(rep_["worst_ratio"] * 1000)
+                evaluations += hist["schema-steps:inputs"]
+            except Exception:  # noqa: BLE001
+                pass
+        if p_.returncode == 1:
+            for l in [l.strip() for l in p_.stdout.splitlines() if l.startswith("   ")][:5]:
+                disagreements.append({"what": "schema post-processing: the implementation and the step-counting model differ (acceptance, or more executed "
+                                      "lines than the model's own steps + 60)", "detail": l})
+        elif p_.returncode != 0:
+            hist["schema-steps:could-not-run"] = 1
     return {
         "evaluations": evaluations,
         "distinct_nontrivial": len(distinct),
-        "rule": "(1) every translated pattern is run by the Lean matcher on generated / mutated / random inputs and its first match compared with "
+        "rule": "(5) the schema parsers' post-processing is run under a line tracer on growing families (k names / extensions / values / oids, long strings, "
+                "invalid tails) and compared with the step-counting model of Model/SchemaCost.lean (same acceptance; executed lines <= own steps + 60); "
+                "(1) every translated pattern is run by the Lean matcher on generated / mutated / random inputs and its first match compared with "
                 "CPython's; (2) pumping candidates (each substring of length 1-4 of generated sentences repeated k=4,7,10 times, tail kept or broken) "
                 "are scored with the model's exact step count Re.work and confirmed by timing from_string when the count multiplies; (3) fixed "
                 "adversarial families (unterminated strings, escapes, space runs, list items, arcs, options, nesting, byte-by-byte delivery) are timed "
